@@ -12,6 +12,10 @@
  * Built a second time with -DBR_CT_MUL31=1 -DBR_CT_MUL15=1 to cover the
  * alternate definitions of MUL31 / MUL31_lo / MUL15.
  */
+#if defined(PRIM_EXTRA_TU) && !defined(PRIM_INCLUDED)
+/* listed as an extra source of h_bigint_primct only so that the build cache sees changes */
+typedef int h_bigint_prim_is_included_elsewhere;
+#else
 #include "common.h"
 #include "inner.h"
 
@@ -196,3 +200,4 @@ main(int argc, char **argv)
 	vf_done();
 	return 0;
 }
+#endif
